@@ -97,6 +97,7 @@ class Source:
         self.globals = {}      # module -> {name: ('const', ast expr) | ('import', dotted) | ('func', key) | ('class', name)}
         self.module_assign_targets = {}   # module -> set of global names assigned at module level
         self.functions_table = {}         # FUNCTIONS entries: name -> ast expr
+        self.mutable_globals = {}         # module -> names some function rebinds through a `global` statement
         self.digest = hashlib.sha256()
         for m in MODULES:
             path = os.path.join(self.repo, 'smartquery', m + '.py')
@@ -113,6 +114,7 @@ class Source:
         g = {}
         self.globals[m] = g
         tree = self.trees[m]
+        self.mutable_globals[m] = {n for st in ast.walk(tree) if isinstance(st, ast.Global) for n in st.names}
         for st in tree.body:
             if isinstance(st, ast.Import):
                 for a in st.names:
